@@ -3,8 +3,12 @@
 //! and writes (a) Coq case files on which the model is evaluated and compared, (b) result_<prop>.json.
 mod c13;
 mod coqw;
+mod gen;
 mod prng;
+mod ser;
+mod termprops;
 mod util;
+mod wf;
 
 use util::Opts;
 
@@ -32,6 +36,10 @@ fn main() {
     util::silence_panics();
     let rep = match prop.as_str() {
         "C13" => c13::run(&o),
+        "C06" => termprops::run_c06(&o),
+        "C07" => termprops::run_c07(&o),
+        "C14" => termprops::run_c14(&o),
+        "C17" => termprops::run_c17(&o),
         _ => { eprintln!("unknown property {prop}"); std::process::exit(2); }
     };
     rep.write(&o.outdir).expect("write report");
